@@ -6,8 +6,10 @@ pat=${1:-*}
 root=/tmp/sm
 rm -rf $root; mkdir -p $root
 ls -d /verif/seeded/$pat/ 2>/dev/null | xargs -n1 basename | grep -E '^C[0-9]+-' > $root/all.txt
-W=8
+W=${SEED_MATRIX_WORKERS:-8}
 for k in $(seq 1 $W); do git -C /repo worktree add --detach $root/w$k HEAD >/dev/null 2>&1; done
+# the checks run from a snapshot of /verif's committed state, so that /verif can be edited meanwhile
+git -C /verif worktree add --detach $root/verif HEAD >/dev/null 2>&1
 worker() {
   k=$1
   awk -v k=$k -v W=$W 'NR % W == k % W' $root/all.txt | while read name; do
@@ -15,7 +17,7 @@ worker() {
     wt=$root/w$k
     git -C $wt checkout -q -- . 2>/dev/null
     if ! git -C $wt apply /verif/seeded/$name/patch.diff 2>/dev/null; then echo "$name $p exit=NA patch does not apply"; continue; fi
-    out=$(cd /verif && RXVC_REPO=$wt RXVC_EVIDENCE_DIR=$root/ev$k timeout 1500 python3-vt -m rxvc check $p --tier quick 2>&1)
+    out=$(cd $root/verif && RXVC_REPO=$wt RXVC_EVIDENCE_DIR=$root/ev$k timeout 1500 python3-vt -m rxvc check $p --tier quick 2>&1)
     line=$(echo "$out" | grep -m1 "^VIOLATION" | cut -c1-160)
     sumline=$(echo "$out" | tail -1 | cut -c1-200)
     code=$(echo "$sumline" | grep -o "exit [0-9]*" | tail -1 | sed 's/exit //')
@@ -27,6 +29,7 @@ for k in $(seq 1 $W); do worker $k & done
 wait
 cat $root/out*.txt | sort > /verif/seeded/MATRIX.txt
 for k in $(seq 1 $W); do git -C /repo worktree remove --force $root/w$k; done
+git -C /verif worktree remove --force $root/verif
 rm -rf $root
 echo "caught: $(grep -c 'exit=1' /verif/seeded/MATRIX.txt)  not caught: $(grep -vc 'exit=1' /verif/seeded/MATRIX.txt)"
 grep -v 'exit=1' /verif/seeded/MATRIX.txt
